@@ -81,7 +81,7 @@ def make_db(R, p, md, ty):
 
 
 def generate(R, tier):
-    n = 3000 if tier == "quick" else 300000
+    n = 8000 if tier == "quick" else 300000
     for ttl in range(256):
         spec, p, ty = G.rand_wire_pkt(R, flags=2)
         spec["ttl"] = ttl
